@@ -253,9 +253,12 @@ def run(chk, facts, tier):
         "every child in operator / receiver position (a position table justified by the grammar) reaches the output only through maybe_with_parens, the left operand of a "
         "left-associative operator may be printed bare only under the same-operator test, maybe_with_parens leaves bare only member-level forms, and the receiver of a method-style "
         "extension call is parenthesised; (ESCAPE) attribute names written with Display are either escaped or under an is_normalized_ident guard; (ONE-PRINTER) AST Display goes "
-        "through the EST printer. Declines sufficiency of the parenthesisation over the whole grammar, `-N` literal folding and the unescaper.")
+        "through the EST printer; (PRINT.optoken) the token each operator prints as (Display for BinaryOp / UnaryOp), read back through the grammar's operator productions, the lowering to builder methods "
+        "(construct_expr_rel, add_nary / mul_nary left folds, to_meth's method-name dispatch) and the derived builder map, builds the same operator with operands in order. Declines sufficiency of the parenthesisation over the whole grammar, `-N` literal folding and the unescaper.")
     chk.assumptions = ["the operand-position table MUST_PARENS / MEMBER_LEVEL in rules/C05.py (from the Cedar grammar's precedence levels)",
                        "label provenance is flow-insensitive per function (variant-qualified seeds)"]
     printer(chk, facts)
     escape(chk, facts)
     one_printer(chk, facts)
+    from rules import c05_tokens
+    c05_tokens.check(chk, facts)
